@@ -120,7 +120,7 @@ class MappingMatrix:
         self.__valid_mappings = np.zeros((len(self.__s2i), len(self.__s2i)))
         for ps in pattern_symbols:
             for ss in structure_symbols:
-                mappings = mapper.permute(ps, ss)
+                mappings = mapper.permute([ps], [ss])
                 assert len(mappings) <= 1
                 if len(mappings) > 0:
                     assert len(mappings[0]) == 1
